@@ -50,17 +50,6 @@ Mk(pc, psr, rv, rm, r6, strict, real, base) ==
 VARIABLES st, prev, obsv, n
 vars == <<st, prev, obsv, n>>
 
-\* the observation of a step  s --> x  in the vocabulary of the harness projection
-MemDiff(s, t) == { <<a, Rd(t, a).v, Rd(t, a).m>> : a \in { a \in (DOMAIN t.memw) \cup (DOMAIN s.memw) : Rd(t, a) # Rd(s, a) } }
-RECURSIVE SetToSeq(_)
-SetToSeq(SS) == IF SS = {} THEN <<>> ELSE LET x == CHOOSE x \in SS : TRUE IN <<x>> \o SetToSeq(SS \ {x})
-ObsvOf(s, x) ==
-  [res |-> x.out, env |-> [lockK |-> 0, lockD |-> 0, ints |-> <<>>, draws |-> <<>>],
-   proj |-> [pc |-> x.st.pc, psr |-> x.st.psr, regs |-> [i \in 1..8 |-> <<x.st.reg[i].v, x.st.reg[i].m>>],
-             obs |-> SetToSeq({ <<a, x.st.obs[a]>> : a \in DOMAIN x.st.obs }),
-             memdiff |-> SetToSeq(MemDiff(s, x.st)), kbd |-> x.st.kbd, disp |-> x.st.disp,
-             icount |-> x.st.icount, fno |-> x.st.fno]]
-
 Init == /\ \E pc \in (IF Wide THEN {0, 12287, 12288, 65023, 65024, 65535} ELSE {12288, 65023, 65024}), psr \in {32770, 2, 33537},
               rv \in (IF Wide THEN {12288, 12287, 65024, 65023, 0, 65535, 65030, 65532} ELSE {12288, 65023}),
               rm \in {65535, 0}, r6 \in (IF Wide THEN {12288, 65024, 0, 12289} ELSE {12288, 65024}), strict \in BOOLEAN, real \in BOOLEAN, base \in {1, 2} :
